@@ -95,9 +95,29 @@ pub fn convert_cntrl_flow(
     })
 }
 
+/// Only expressions fit in a Python conditional expression, constructs which are statements in Python do not.
 fn is_valid_in_ternary(then: &ASTTy, el: &ASTTy) -> bool {
-    !matches!(then.node, NodeTy::Block { .. } | NodeTy::Raise { .. })
-        && !matches!(el.node, NodeTy::Block { .. } | NodeTy::Raise { .. })
+    fn is_valid(ast: &ASTTy) -> bool {
+        match &ast.node {
+            NodeTy::Block { .. }
+            | NodeTy::Raise { .. }
+            | NodeTy::For { .. }
+            | NodeTy::While { .. }
+            | NodeTy::Match { .. }
+            | NodeTy::Handle { .. }
+            | NodeTy::With { .. }
+            | NodeTy::VariableDef { .. }
+            | NodeTy::Reassign { .. }
+            | NodeTy::Pass
+            | NodeTy::Break
+            | NodeTy::Continue => false,
+            NodeTy::IfElse { then, el: Some(el), .. } => is_valid_in_ternary(then, el),
+            NodeTy::IfElse { el: None, .. } => false,
+            _ => true,
+        }
+    }
+
+    is_valid(then) && is_valid(el)
 }
 
 #[cfg(test)]
